@@ -394,7 +394,7 @@ static int run_step(scpi_t * context, vh_ctx_t * v, const vh_step_t * st, vh_ste
                 b1 = SCPI_ParamToInt32(context, p, &i32); b2 = SCPI_ParamToUInt32(context, p, &u32);
                 b3 = SCPI_ParamToInt64(context, p, &i64); b4 = SCPI_ParamToUInt64(context, p, &u64);
                 b5 = SCPI_ParamToFloat(context, p, &f); b6 = SCPI_ParamToDouble(context, p, &d);
-                r->i = i64; r->u = u64; r->d = d; r->f = f;
+                r->i = i64; r->u = u64; r->d = d; r->f = f; r->to_mask = (b1 ? 1 : 0) | (b2 ? 2 : 0) | (b3 ? 4 : 0) | (b4 ? 8 : 0) | (b5 ? 16 : 0) | (b6 ? 32 : 0);
                 if (v->log_enabled) {
                     uint64_t db = 0; uint32_t fb = 0; memcpy(&db, &d, 8); memcpy(&fb, &f, 4);
                     vh_buf_printf(&v->log, " to=%d%d%d%d%d%d %ld %lu %lld %llu %08x %016llx isnum=%d%d", b1, b2, b3, b4, b5, b6, b1 ? (long) i32 : 0L, b2 ? (unsigned long) u32 : 0UL,
